@@ -7,11 +7,12 @@ import FeVerif.Driver.Indexer
 import FeVerif.Driver.FileIndex
 import FeVerif.Driver.Angle
 import FeVerif.Driver.DataVersion
+import FeVerif.Driver.Align
 
 namespace FeVerif
 
 def dispatchers : List (String → List String → Option String) :=
-  [dispatchFrame, dispatchIndexer, dispatchFileIndex, dispatchAngle, dispatchDataVersion]
+  [dispatchFrame, dispatchIndexer, dispatchFileIndex, dispatchAngle, dispatchDataVersion, dispatchAlign]
 
 def dispatch (line : String) : String :=
   match line.splitOn " " with
